@@ -27,7 +27,6 @@ import (
 	"os"
 	"path/filepath"
 	"regexp"
-	"runtime"
 	"sort"
 	"strconv"
 	"strings"
@@ -626,50 +625,48 @@ func (c *verifC04Ctl) isBlocked(x byte) bool {
 func (c *verifC04Ctl) settle(x byte) error {
 	t := c.th[x]
 	start := time.Now()
-	// only the steps that begin with v.lock / v.lockfile can wait; any other step is polled for
-	// blocking only after a long silence (a mutated tree may block elsewhere)
-	canBlock := strings.HasSuffix(t.at, ":v.lock") || strings.HasSuffix(t.at, ":v.lockfile")
-	var lastCheck time.Time
-	for n := 0; ; n++ {
+	// Only the steps that begin with v.lock / v.lockfile can wait; any other step is examined for
+	// blocking only after a long silence (a mutated tree may block elsewhere). Two lock users never
+	// wait for each other (both take the Serialize mutex before the flock), so while the other
+	// thread is waiting, x cannot be; the lock indicators would show the other thread's wait.
+	other := c.th[byte('P'+'T'-x)]
+	canBlock := (strings.HasSuffix(t.at, ":v.lock") || strings.HasSuffix(t.at, ":v.lockfile")) && other.state != 1
+	wait := 20 * time.Millisecond
+	if canBlock {
+		wait = 50 * time.Microsecond
+	}
+	for {
+		timer := time.NewTimer(wait)
 		select {
 		case id := <-t.arrive:
+			timer.Stop()
 			t.state, t.at = 0, verifC04Label(id)
 			return nil
 		case r := <-t.done:
+			timer.Stop()
 			t.state, t.result = 2, r
 			return nil
-		default:
+		case <-timer.C:
 		}
-		now := time.Now()
-		el := now.Sub(start)
-		// Two lock users never wait for each other (both take the Serialize mutex before the
-		// flock), so while the other thread is waiting, x cannot be; the lock indicators would
-		// show the other thread's wait.
-		if c.th[byte('P'+'T'-x)].state != 1 && ((canBlock && el > 20*time.Microsecond) || el > 20*time.Millisecond) &&
-			now.Sub(lastCheck) > 100*time.Microsecond {
-			lastCheck = now
-			if c.isBlocked(x) {
-				// re-check arrival once: the indicator and the channels are read at different instants
-				select {
-				case id := <-t.arrive:
-					t.state, t.at = 0, verifC04Label(id)
-					return nil
-				case r := <-t.done:
-					t.state, t.result = 2, r
-					return nil
-				default:
-				}
-				t.state = 1
+		if other.state != 1 && c.isBlocked(x) {
+			// re-check arrival once: the indicator and the channels are read at different instants
+			select {
+			case id := <-t.arrive:
+				t.state, t.at = 0, verifC04Label(id)
 				return nil
+			case r := <-t.done:
+				t.state, t.result = 2, r
+				return nil
+			default:
 			}
+			t.state = 1
+			return nil
 		}
-		if el > 30*time.Second {
+		if time.Since(start) > 60*time.Second {
 			return fmt.Errorf("thread %c stuck after %s", x, t.at)
 		}
-		if n > 20 {
-			time.Sleep(20 * time.Microsecond)
-		} else {
-			runtime.Gosched()
+		if wait < 2*time.Millisecond {
+			wait *= 2
 		}
 	}
 }
